@@ -183,18 +183,18 @@ func (r Resp) Sig() string {
 func Serve(h http.Handler, calls *int, req Req, preset map[string][]string) Resp {
 	rec := NewRec()
 	// an earlier link of the chain put its own, long-lived value slices into the map (w.Header()[k] = v): replacing
-	// a header is the middleware's right, writing through into that storage is not
-	keep := make(map[string][]string, len(preset))
+	// a header is the middleware's right, writing through into that storage is not. (The slices are private to this
+	// call: preset itself is shared by concurrent callers and is only read.)
+	own := make(map[string][]string, len(preset))
 	for k, v := range preset {
-		keep[k] = append([]string(nil), v...)
-		rec.H[k] = v[:len(v):len(v)]
+		own[k] = append([]string(nil), v...)
+		rec.H[k] = own[k][:len(v):len(v)]
 	}
 	defer func() {
 		for k, v := range preset {
 			for i := range v {
-				if v[i] != keep[k][i] {
-					preset[k][i] = keep[k][i] // (restore: the map is shared by later calls)
-					panic(fmt.Sprintf("the value slice that an earlier handler had stored under %q in the response header map was overwritten in place: element %d was %q, is now %q", k, i, keep[k][i], v[i]))
+				if own[k][i] != v[i] {
+					panic(fmt.Sprintf("the value slice that an earlier handler had stored under %q in the response header map was overwritten in place: element %d was %q, is now %q", k, i, v[i], own[k][i]))
 				}
 			}
 		}
